@@ -468,6 +468,19 @@ def unit(p, item, tier, seed):
                 except Exception:  # noqa: BLE001
                     continue
                 check_circuit(p, n + "/into_bench", c2, rnd, exhaustive_starts=False, build_src=circ.circ_src(c) + "\nc.into_bench()\n")
+            if c.outputs:
+                # an output listed twice, then renamed: the default start set of a forward traversal is the output list
+                from checks import mutators
+
+                c3 = mutators.rebuild(c)
+                o = c3.outputs[-1]
+                hist = f"\nc.mark_as_output({o!r})\nc.rename_gate({o!r}, 'renamed_while_listed_twice')\n"
+                try:
+                    c3.mark_as_output(o)
+                    c3.rename_gate(o, "renamed_while_listed_twice")
+                except Exception:  # noqa: BLE001
+                    continue
+                check_circuit(p, n + "/output-listed-twice-then-renamed", c3, rnd, exhaustive_starts=False, build_src=circ.circ_src(c) + hist)
         # canary: oracle must flag a wrong reachable set
         c = circgen.build(["a", "b"], [("g", G.AND, ("a", "b"))], ["g"])
         p.canary(reach(c, ["g"], False) == {"a", "b", "g"} and reach(c, ["a"], True) == {"a", "g"})
